@@ -452,5 +452,9 @@ func lowerFirst(s string) string {
 }
 
 func upperFirst(s string) string {
+	if s == "" {
+		return s
+	}
+
 	return strings.ToUpper(s[:1]) + s[1:]
 }
